@@ -202,8 +202,8 @@ def enclosing_statement(f, line):
 # ---------------------------------------------------------------- model evaluation
 def eval_case_file(path):
     d = os.path.dirname(path)
-    rc, out, dt = run(["coqc", "-Q", COQ, "Verif", os.path.basename(path)], cwd=d, timeout=1500,
-                      env=dict(os.environ, OCAMLRUNPARAM="i=32M"))
+    rc, out, dt = run(["sh", "-c", "ulimit -s unlimited 2>/dev/null; exec coqc -Q %s Verif %s" % (COQ, os.path.basename(path))],
+                      cwd=d, timeout=1500, env=dict(os.environ, OCAMLRUNPARAM="i=32M"))
     res = {"file": os.path.basename(path), "rc": rc, "s": dt}
     m = re.search(r"M\s*=\s*(.*?)\s*:\s*list", out, re.S)
     if rc != 0 or not m:
